@@ -11,7 +11,13 @@ contracts/g_calls.json: the obligations that hold on the unchanged tree are list
 generated and proved, a listed obligation that becomes refuted is a violation; unlisted ones that do not
 prove are reported as undecided call sites and never raise an alarm (unless they are known findings).
 
-Class invariants used (from the constructors' own checks): ListArray stops.length() >= starts.length();
+  G.method   every recursive call of reduce_next / sort_next / argsort_next / getitem_next passes Index objects of the
+             length the callee assumes, and (axis, depth) methods pass depth + 1 exactly from a list class to its content
+  G.construct  every layout node constructed in libawkward satisfies the length rules validityerror() checks
+             (len(content) >= len(mask), len(mask) * 8 >= length, len(stops) >= len(starts), len(offsets) >= 1,
+             len(index) >= len(tags)), assuming *this obeys them
+
+Class invariants used (from the constructors' own checks, plus the length rules of validity for the mask classes): ListArray stops.length() >= starts.length();
 ListOffsetArray offsets.length() >= 1; UnionArray index.length() >= tags.length(); RegularArray size >= 0,
 length >= 0; every length() is >= 0."""
 import copy, glob, json, os, re, time
@@ -48,6 +54,10 @@ INVARIANTS = {
     "ListOffsetArrayOf": ["len:offsets_ >= 1"],
     "UnionArrayOf": ["len:index_ >= len:tags_"],
     "RegularArray": ["size_ >= 0", "length_ >= 0"],
+    # length rules of validityerror() that the constructors do not check: *this is assumed VALID (C11/C12 speak
+    # about operations on valid arrays)
+    "ByteMaskedArray": ["clen:content_ >= len:mask_"],
+    "BitMaskedArray": ["length_ >= 0", "clen:content_ >= length_", "len8:mask_ >= length_"],
 }
 
 # Contracts of the recursive virtual methods (lengths only).  Inside a method body they are ASSUMED (METHOD_PRE /
@@ -69,6 +79,35 @@ VMETHODS = {
                              ("outlength >= 0", lambda a: a["outlength"] >= 0)]},
 }
 
+# Length-level validity rules at every place where libawkward constructs a layout node (G.construct): what
+# validityerror() checks about lengths must hold for the node being built, for all inputs of the constructing method.
+def _layout_class(ty):
+    m = re.search(r"awkward::(ByteMaskedArray|BitMaskedArray|UnmaskedArray|ListOffsetArrayOf|ListArrayOf|IndexedArrayOf|RegularArray|UnionArrayOf)\b", ty or "")
+    return m.group(1) if m else None
+
+
+CONSTRUCT = {
+    "ByteMaskedArray": {"args": ["identities", "parameters", "mask", "content", "valid_when"],
+                        "rules": [("len(content) >= len(mask)", lambda a: a["clen:content"] >= a["len:mask"])],
+                        "length": lambda a: a["len:mask"]},
+    "BitMaskedArray": {"args": ["identities", "parameters", "mask", "content", "valid_when", "length", "lsb_order"],
+                       "rules": [("len(mask) * 8 >= length", lambda a: a["len:mask"] * 8 >= a["length"]),
+                                 ("len(content) >= length", lambda a: a["clen:content"] >= a["length"])],
+                       "length": lambda a: a["length"]},
+    "UnmaskedArray": {"args": ["identities", "parameters", "content"], "rules": [], "length": lambda a: a["clen:content"]},
+    "ListOffsetArrayOf": {"args": ["identities", "parameters", "offsets", "content"],
+                          "rules": [("len(offsets) >= 1", lambda a: a["len:offsets"] >= 1)],
+                          "length": lambda a: a["len:offsets"] - 1},
+    "ListArrayOf": {"args": ["identities", "parameters", "starts", "stops", "content"],
+                    "rules": [("len(stops) >= len(starts)", lambda a: a["len:stops"] >= a["len:starts"])],
+                    "length": lambda a: a["len:starts"]},
+    "IndexedArrayOf": {"args": ["identities", "parameters", "index", "content"], "rules": [], "length": lambda a: a["len:index"]},
+    "UnionArrayOf": {"args": ["identities", "parameters", "tags", "index", "contents"],
+                     "rules": [("len(index) >= len(tags)", lambda a: a["len:index"] >= a["len:tags"])],
+                     "length": lambda a: a["len:tags"]},
+}
+
+
 # methods that recurse with (axis, depth): a list class passes depth + 1 to its content, every other class passes depth;
 # a call on a conversion of *this passes depth unchanged (G.method "depth")
 DEPTH_METHODS = {"num": 1, "offsets_and_flattened": 1, "localindex": 1, "rpad": 2, "rpad_and_clip": 2, "combinations": 5}   # index of `depth`
@@ -80,6 +119,7 @@ METHOD_PRE = {
     "sort_next": ["outlength >= 0", "negaxis >= 1"],
     "argsort_next": ["outlength >= 0", "negaxis >= 1"],
     "rpad": [], "rpad_and_clip": [],
+    "getitem_range_nowrap": ["start >= 0", "stop >= start"],
     "combinations": ["n >= 1"],
 }
 
@@ -101,7 +141,8 @@ def index_elem(ty):
 
 # conversions that return an array of the same length as the one they are called on
 SAME_LENGTH_METHODS = ("shallow_copy", "deep_copy", "shallow_simplify", "toListOffsetArray64", "toRegularArray",
-                       "simplify_optiontype", "simplify_uniontype", "toIndexedOptionArray64", "toByteMaskedArray")
+                       "simplify_optiontype", "simplify_uniontype", "toIndexedOptionArray64", "toByteMaskedArray",
+                       "getitem_field", "getitem_fields", "numbers_to_type", "copy_to")
 
 
 def vm_params_match(vm, names):
@@ -147,6 +188,10 @@ class CallerUnit(munit.MUnit):
                 line = node[-1]
             if node and node[0] == "call" and isinstance(node[1], str) and node[1] in kernels:
                 occ.setdefault(node[1], set()).add(line)
+            if node and node[0] == "call" and node[1] == "make_shared" and _layout_class(node[-1] if isinstance(node[-1], str) else "") in CONSTRUCT:
+                occ.setdefault("construct:" + _layout_class(node[-1]), set()).add(line)
+            if node and node[0] == "construct" and isinstance(node[1], str) and not node[1].startswith("x:std::") and _layout_class(node[1]) in CONSTRUCT:
+                occ.setdefault("construct:" + _layout_class(node[1]), set()).add(line)
             if node and node[0] == "mcall" and len(node) > 2 and isinstance(node[2], str) and (node[2] in VMETHODS or node[2] in DEPTH_METHODS):
                 occ.setdefault("method:" + node[2], set()).add(line)
             for x in node:
@@ -166,6 +211,7 @@ class CallerUnit(munit.MUnit):
         self.ev.ev_str = lambda e, st: Val(IV(0), "opaque")
         self.ev.emit_safety = False
         self.clen = {}
+        self.fallback = {}
         self.corigin = {}               # opaque Content id -> "content" (the content_ field or derived from it) | "this"
 
     # ---- objects
@@ -214,6 +260,10 @@ class CallerUnit(munit.MUnit):
 
     def ev_construct(self, e, st):
         _, ty, args, _t = e
+        if isinstance(ty, str) and not ty.startswith("x:std::") and _layout_class(ty) in CONSTRUCT and len(args) >= 3:
+            v = self.construct_layout(_layout_class(ty), args, st)
+            if v is not None:
+                return v
         ety = index_elem(ty)
         if ety is not None and args:
             a0 = self.ev.ev(args[0], st)
@@ -277,6 +327,50 @@ class CallerUnit(munit.MUnit):
             self.corigin[self.ext_counter] = origin
         return Val(IV(self.ext_counter), "opaque")
 
+    def site_number(self, name):
+        """static ordinal of this call site (k-th textual call of `name` in the method); sites inside inlined helper
+        bodies have no static ordinal: numbered 101, 102, ... per name and source line, in order of first visit"""
+        k = self.site_ordinal.get((name, self.ev.line))
+        if k is not None:
+            return k
+        fb = self.fallback.setdefault(name, {})
+        if self.ev.line not in fb:
+            fb[self.ev.line] = 101 + len(fb)
+        return fb[self.ev.line]
+
+    def construct_layout(self, cls, args, st):
+        """G.construct obligations for `new cls(args...)`; returns a Content value with the constructed node's length"""
+        spec_ = CONSTRUCT[cls]
+        if len(args) < len(spec_["args"]):
+            return None
+        env = {}
+        for pname, a in zip(spec_["args"], args):
+            try:
+                v = self.ev.ev(a, st)
+            except EvalError:
+                continue
+            if v.k == "obj":
+                env["len:" + pname] = self.objlen[v.arr]
+            elif v.k == "opaque" and z3.is_int_value(v.t) and pname == "content":
+                env["clen:content"] = self.content_len(v.t.as_long(), st)
+            elif v.k in ("int", "bool"):
+                env[pname] = to_int(v)
+        self.vcallno = getattr(self, "vcallno", 0) + 1
+        key = "construct:" + cls
+        rec_base = {"kernel": key, "line": self.ev.line, "n": self.site_number(key)}
+        for desc, fn in spec_["rules"]:
+            try:
+                claim = fn(env)
+            except KeyError:
+                self.sites.append(dict(rec_base, param=desc, kind="G.construct", status="unknown",
+                                       desc="%s when constructing %s: an argument is not modelled" % (desc, cls)))
+                continue
+            self.emit(rec_base, "G.construct", desc, claim, st, "constructing %s: %s" % (cls, desc))
+        try:
+            return self.new_content(spec_["length"](env), st)
+        except KeyError:
+            return None
+
     def check_depth(self, name, oid, args, st):
         """G.method depth: the depth handed to the recursive call is this method's depth plus one exactly when the call
         descends from a list class into its content"""
@@ -290,8 +384,7 @@ class CallerUnit(munit.MUnit):
             return
         step = 1 if (origin == "content" and self.clsname in LIST_CLASSES) else 0
         self.vcallno = getattr(self, "vcallno", 0) + 1
-        rec_base = {"kernel": "method:" + name, "line": self.ev.line,
-                    "n": self.site_ordinal.get(("method:" + name, self.ev.line), 100 + self.vcallno)}
+        rec_base = {"kernel": "method:" + name, "line": self.ev.line, "n": self.site_number("method:" + name)}
         self.emit(rec_base, "G.method", "depth == depth + %d" % step, d == st.vars["depth"].t + step, st,
                   "call of %s on %s: passes depth + %d" % (name, "the content" if origin == "content" else "a conversion of *this", step))
 
@@ -313,8 +406,7 @@ class CallerUnit(munit.MUnit):
                 env["len:" + p] = self.objlen[v.arr]
             elif v.k in ("int", "bool"):
                 env[p] = to_int(v)
-        rec_base = {"kernel": "method:" + name, "line": self.ev.line,
-                    "n": self.site_ordinal.get(("method:" + name, self.ev.line), 100 + self.vcallno)}
+        rec_base = {"kernel": "method:" + name, "line": self.ev.line, "n": self.site_number("method:" + name)}
         for desc, fn in vm["pre"]:
             try:
                 claim = fn(env)
@@ -350,6 +442,9 @@ class CallerUnit(munit.MUnit):
         if o.k == "obj":
             if name == "length" and not args:
                 return Val(self.objlen[o.arr], "int")
+            if name in ("deep_copy", "copy_to", "shallow_copy", "to64") :
+                self.ext_counter += 1
+                return self.new_object("%s%d" % (name, self.ext_counter), self.objlen[o.arr], self.ev.elem.get(o.arr, "i64"), st)
             if name == "is_empty_advanced" and not args:
                 return Val(self.objlen[o.arr] == 0, "bool")
             if name in ("data", "get") and not args:
@@ -444,6 +539,10 @@ class CallerUnit(munit.MUnit):
             return Val(IV(0), "opaque")       # continue on the success path
         if name == "failure" or name == "success":
             return Val(IV(0), "opaque")
+        if name == "make_shared" and _layout_class(ty) in CONSTRUCT:
+            v = self.construct_layout(_layout_class(ty), args, st)
+            if v is not None:
+                return v
         if name in ("make_shared", "move", "dynamic_pointer_cast", "to_string", "string"):
             vals = []
             for a in args:
@@ -480,7 +579,7 @@ class CallerUnit(munit.MUnit):
         d = self.kernels[name]
         params = d["params"]
         actual = args[1:]            # first argument is ptr_lib
-        rec_base = {"kernel": name, "line": self.ev.line, "n": self.site_ordinal.get((name, self.ev.line), 100 + self.callno)}
+        rec_base = {"kernel": name, "line": self.ev.line, "n": self.site_number(name)}
         if len(actual) != len(params):
             self.sites.append(dict(rec_base, param="*", kind="G.shape", status="unknown", desc="argument count differs from kernel-dispatch"))
             return self.opaque_value(e[3], st, "err")
@@ -653,6 +752,9 @@ class CallerUnit(munit.MUnit):
             m = re.match(r"(\w+)\s*>=\s*(-?\d+)$", src)
             if m and m.group(1) in st.vars and st.vars[m.group(1)].k == "int":
                 st.assume(st.vars[m.group(1)].t >= int(m.group(2)))
+            m = re.match(r"(\w+)\s*>=\s*([A-Za-z_]\w*)$", src)
+            if m and all(x in st.vars and st.vars[x].k == "int" for x in m.groups()):
+                st.assume(st.vars[m.group(1)].t >= st.vars[m.group(2)].t)
         if mname in VMETHODS and vm_params_match(VMETHODS[mname], list(self.param_types)):
             env = {}
             tl = self.this_length(st)
@@ -688,9 +790,20 @@ class CallerUnit(munit.MUnit):
             return None
 
         def side(x):
+            if x.startswith("clen:"):
+                fld = x[5:]
+                v = self.ev_var(["v", fld, self.field_types.get(fld) or "x:std::shared_ptr<awkward::Content>"], st)
+                if v.k == "opaque" and z3.is_int_value(v.t):
+                    return self.content_len(v.t.as_long(), st)
+                return None
+            if x.startswith("len8:"):
+                n = x[5:]
+                ty = self.field_types.get(n) or "x:awkward::IndexU8"
+                v = self.ev_var(["v", n, ty], st)
+                return self.objlen.get(v.arr) * 8 if v.k == "obj" else None
             if x.startswith("len:"):
                 n = x[4:]
-                ty = self.field_types.get(n)
+                ty = self.field_types.get(n) or {"mask_": "x:awkward::Index8"}.get(n)
                 if ty is None:
                     return None
                 v = self.ev_var(["v", n, ty], st)
@@ -734,7 +847,8 @@ def _work(task):
             for k, f in enumerate(fs):
                 if f.get("body") is None:
                     continue
-                if not _mentions_kernel(f["body"], _G["kernels"]) and not any(('"%s"' % vm) in json.dumps(f["body"]) for vm in list(VMETHODS) + list(DEPTH_METHODS)):
+                if not _mentions_kernel(f["body"], _G["kernels"]) and not any(('"%s"' % vm) in json.dumps(f["body"]) for vm in list(VMETHODS) + list(DEPTH_METHODS)) \
+                        and not re.search(r"awkward::(ByteMaskedArray|BitMaskedArray|ListOffsetArrayOf|ListArrayOf|UnionArrayOf)", json.dumps(f["body"])):
                     continue
                 out["methods"] += 1
                 body = munit.subst_helpers(copy.deepcopy(f["body"]), helpers)
